@@ -52,5 +52,8 @@ typedef struct {
 void run_history(const block_t *b, const hist_t *h, unsigned monitors, hres_t *res);
 /* recoverability oracle on the generator form: are all k sources determined by the received set? */
 int  oracle_solvable(const block_t *b, const uint8_t *received /* n flags */);
+/* when set, every session first offers the instance a parameter set the documented limits exclude (refused with an error status)
+ * and only then the real one: a refused configuration must leave the instance usable */
+extern int g_session_preprobe;
 extern const char *g_prop;      /* property whose monitor is on the verdict path */
 #endif
